@@ -441,6 +441,10 @@ func c05Handwritten(r *fw.Rec) {
 		"undefined/type-id-is-not-the-quoted-digit":           "%\"0\" = type { i32 }\n@g = global %0 zeroinitializer\n",
 		"undefined/quoted-digit-blockaddress-function":        "define void @0() {\n  br label %b\nb:\n  ret void\n}\n@a = global i8* blockaddress(@\"0\", %b)\n",
 		"undefined/zero-padded-metadata-id":                   "!nm = !{!007}\n!8 = !{}\n",
+		"undefined/uselistorder-blockaddress-block":           "define void @f() {\nentry:\n  br label %b\nb:\n  ret void\n}\n@a = global i8* blockaddress(@f, %b)\n@c = global i8* blockaddress(@f, %b)\nuselistorder i8* blockaddress(@f, %nope), { 1, 0 }\n",
+		"undefined/cleanupret-unwind-label":                   "declare i32 @pers(...)\ndefine void @f() personality i32 (...)* @pers {\nentry:\n  invoke void @f() to label %ok unwind label %cl\nok:\n  ret void\ncl:\n  %cp = cleanuppad within none []\n  cleanupret from %cp unwind label %nope\n}\n",
+		"undefined/catchswitch-handler-label":                 "declare i32 @pers(...)\ndefine void @f() personality i32 (...)* @pers {\nentry:\n  invoke void @f() to label %ok unwind label %cs\nok:\n  ret void\ncs:\n  %s = catchswitch within none [label %nope] unwind to caller\n}\n",
+		"undefined/catchret-target-label":                     "declare i32 @pers(...)\ndefine void @f() personality i32 (...)* @pers {\nentry:\n  invoke void @f() to label %ok unwind label %cs\nok:\n  ret void\ncs:\n  %s = catchswitch within none [label %h] unwind to caller\nh:\n  %cp = catchpad within %s []\n  catchret from %cp to label %nope\n}\n",
 		"duplicate/explicit-zero-inst-and-entry-block":        "define i32 @f(i32 %x) {\n  %0 = add i32 %x, 1\n  ret i32 %0\n}\n",
 		"duplicate/explicit-zero-twice":                       "define i32 @f() {\n0:\n  %0 = add i32 1, 2\n  ret i32 %0\n}\n",
 		"duplicate/explicit-zero-block-after-param":           "define i32 @f(i32) {\n0:\n  ret i32 %0\n}\n",
